@@ -152,7 +152,8 @@ async fn handler_body(handler_method: String, did: String) -> Result<CoreDocumen
 // method names that are prefixes of one another: dispatch must be by the exact method name
 const METHODS: [&str; 4] = ["foo", "foobar", "ba", "bar"];
 // method-specific ids that differ only in case, or carry an extra segment: distinct DIDs must stay distinct
-const IDS: [&str; 4] = ["a1", "A1", "b2", "x:a1"];
+// (the last two differ only in the case of a hex digit of a percent-encoded octet: different strings, different DIDs)
+const IDS: [&str; 6] = ["a1", "A1", "b2", "x:a1", "p%3Aq", "p%3aq"];
 
 /// What the oracle expects from resolving one DID.
 #[derive(Clone, Debug, PartialEq)]
@@ -167,7 +168,13 @@ enum Expect {
 fn make_jwk_did() -> (String, String) {
   // A public OKP/Ed25519, EC/P-256 or RSA JWK with coordinates and optional members drawn from the tape.
   let x = crate::core::b64::encode(ctx::bytes(32));
-  let mut jwk: serde_json::Value = match ctx::choose(3) {
+  let mut jwk: serde_json::Value = match ctx::choose(5) {
+    3 => {
+      // a BBS+ public key (BLS12381G2): also a JWK, also a did:jwk
+      let y = crate::core::b64::encode(ctx::bytes(48));
+      serde_json::json!({"kty":"EC","crv":"BLS12381G2","x": crate::core::b64::encode(ctx::bytes(48)), "y": y})
+    }
+    4 => serde_json::json!({"kty":"OKP","crv":"X25519","x": x}),
     0 => serde_json::json!({"kty":"OKP","crv":"Ed25519","x": x}),
     1 => {
       let y = crate::core::b64::encode(ctx::bytes(32));
